@@ -88,5 +88,5 @@ pub fn case(tape: &[u8], ctx: &Ctx) -> Outcome {
 }
 
 pub fn property() -> Property {
-    Property { id: "C11", rule: RULE, phases: vec![Phase::Prop { name: "flush-heavy deflate sessions -> strict reference decoder at every flush point", f: case, quick: 100_000, thorough: 3_000_000, max_tape: 320 }] }
+    Property { id: "C11", rule: RULE, phases: vec![Phase::Prop { name: "flush-heavy deflate sessions -> strict reference decoder at every flush point", f: case, quick: 300_000, thorough: 4_000_000, max_tape: 320 }] }
 }
